@@ -646,6 +646,7 @@ func (gen *generator) gepExprType(old *ast.GetElementPtrExpr) (types.Type, error
 		}
 		if indexType, ok := indexType.(*types.VectorType); ok {
 			idx.VectorLen = indexType.Len
+			idx.Scalable = indexType.Scalable
 		}
 		idxs = append(idxs, idx)
 	}
